@@ -207,3 +207,13 @@ func NoteObserveCancel() {
 		e.race.vc[e.cur] = e.race.of(e.cur).join(e.race.cancel)
 	}
 }
+
+// RegisterGlobal is called (from generated init functions) for every package-level variable of the
+// code under test: Run puts each back to the value it had after package initialisation before an
+// execution starts, so executions stay independent of each other.
+var globalResets []func()
+
+func RegisterGlobal[T any](p *T) {
+	init := *p
+	globalResets = append(globalResets, func() { *p = init })
+}
